@@ -284,6 +284,17 @@ def prop_model(case):
             (td / "data").mkdir()
             for lbl, ds in data.items():
                 save_dataset(ds, td / "data" / f"{lbl}.nc")
+        failed_save = False
+        if case["seed"] % 3 == 0:
+            # a write that fails inside the io plugin (an attribute netCDF cannot store) writes nothing: the dataset still lives
+            # in the file it was saved to, and that is what the scheme file must reference
+            lbl0 = sorted(data)[0]
+            data[lbl0].attrs["unstorable"] = {"nested": object()}
+            try:
+                save_dataset(data[lbl0], td / "data" / "elsewhere.nc")
+            except Exception:  # noqa: BLE001
+                failed_save = not (td / "data" / "elsewhere.nc").exists()
+            del data[lbl0].attrs["unstorable"]
         scheme = Scheme(model, params, data, **opts)
         spath = Path("scheme.yml") if relative else td / "scheme.yml"
         with expect_ok("model.scheme_save"):
@@ -341,6 +352,8 @@ def prop_model(case):
     for k in ("clp_constraints", "clp_relations", "clp_penalties", "weights"):
         if k in spec:
             tags.append(k)
+    if failed_save:
+        tags.append("after_failed_save_dataset")
     for mc in spec["megacomplex"].values():
         tags.append("mc-" + mc["type"])
     # non-trivial: tuple-keyed K-matrix (always) + interval + unset optional (always: e.g. scale / irf fields)
